@@ -2,6 +2,7 @@ import BronVerif.Drive.Common
 import BronVerif.Model.Curves
 import BronVerif.Gen.Weierstrass
 import BronVerif.Gen.Edwards
+import BronVerif.Model.Window
 /-!
 Driver handlers for C14 (curve, field and pairing arithmetic).
 
@@ -11,6 +12,13 @@ Driver handlers for C14 (curve, field and pairing arithmetic).
   the formulas REGENERATED from the Go source (`Gen/Weierstrass.lean`, `Gen/Edwards.lean`): exact
   coordinate agreement (`mirror`), and — when the inputs are points of the curve — the affine image
   of the result must be the model's group operation (`spec`);
+* the structured scalar / multi-scalar lines (`smulg`, `msmg`: points given as multiples `mᵢ·G`, scalars
+  and multipliers as compact specs; `smulrawb`, `msmrawb`: explicit points and raw byte strings) are
+  judged against `(Σ kᵢ·mᵢ mod n)·G` resp. the affine model (`spec`), and the hand-written model of
+  the Go windowed ladder / bucket method (`Model/Window.lean`) is EXECUTED on the same bytes — over
+  `ℤ/n` for the multiples-of-`G` lines, over the curve points for the explicit ones; a disagreement
+  between that model and the specification is reported as `UNSUPPORTED window-model-inconsistent`
+  (it contradicts `Props/C14.bucket_msm_spec` / `smul_nibble_spec`, never the implementation);
 * field operations are replayed on `Fp` / `Fp2`; inverse, quotient and square root are judged by the
   defining relation (`a·r = 1`, `r² = a`, "no root" only for non-squares by Euler's criterion).
 -/
@@ -179,6 +187,89 @@ def fieldOp (io : FIO F) (pre : String) (isSq : F → Bool) (op : String) (args 
 
 end generic
 
+/-! ## structured scalar / multi-scalar multiplication lines (window thresholds) -/
+
+open BronVerif.Window in
+/-- `len` little-endian bytes of `k` (`none` if `k` does not fit) -/
+def natToLE? (len k : Nat) : Option (Array UInt8) :=
+  if k < 2 ^ (8 * len) then some ((Array.range len).map fun i => UInt8.ofNat ((k >>> (8 * i)) % 256)) else none
+
+/-- hex byte string in slice order (`-`/`_` = empty) -/
+def hexLE? (s : String) : Option (Array UInt8) :=
+  if s == "-" || s == "_" then some #[] else (hexToBytes? s).map (·.data)
+
+/-- multipliers `mᵢ` of the points `Pᵢ = mᵢ·G` -/
+def expandPSpec (order n : Nat) (s : String) : Option (List Nat) :=
+  match s.splitOn ":" with
+  | ["a", a, b] => do
+    let a ← hexToNat? a
+    let b ← hexToNat? b
+    some ((List.range n).map fun i => (a * i + b) % order)
+  | ["l", l] => do
+    let ms ← parseNatList? l
+    if ms.length = n then some (ms.map (· % order)) else none
+  | _ => none
+
+def parseAssign? (s : String) : Option (Nat × Nat) :=
+  match s.splitOn "=" with
+  | [i, v] => do some (← i.toNat?, ← hexToNat? v)
+  | _ => none
+
+/-- scalars as little-endian byte strings -/
+def expandSSpec (n : Nat) (s : String) : Option (List (Array UInt8)) :=
+  match s.splitOn ":" with
+  | kind :: rest =>
+    let tag := (kind.take 1).toString
+    let len? := (kind.drop 1).toString.toNat?
+    match tag, len?, rest with
+    | "l", some len, [l] => do
+      let ks ← parseNatList? l
+      if ks.length = n then ks.mapM (natToLE? len) else none
+    | "s", some len, [d, ex] => do
+      let d ← hexToNat? d
+      let dflt ← natToLE? len d
+      let exs ← (splitComma ex).mapM parseAssign?
+      let arr ← exs.foldlM (fun (a : Array (Array UInt8)) (iv : Nat × Nat) =>
+        if iv.1 < a.size then (natToLE? len iv.2).map (a.set! iv.1 ·) else none) (Array.replicate n dflt)
+      some arr.toList
+    | "a", some len, [a, b, m] => do
+      let a ← hexToNat? a
+      let b ← hexToNat? b
+      let m ← hexToNat? m
+      if m = 0 then none else (List.range n).mapM fun i => natToLE? len ((a * i + b) % m)
+    | "p", some len, [c] => do
+      let c ← c.toNat?
+      if c = 0 then none else (List.range n).mapM fun i => natToLE? len (2 ^ (i % c))
+    | "b", none, [l] => do
+      let bs ← (splitComma l).mapM hexLE?
+      if bs.length = n then some bs else none
+    | _, _, _ => none
+  | [] => none
+
+open BronVerif.Window in
+/-- the Go functions' model on `ℤ/order` -/
+def znMsm (order : Nat) (bs : List (Array UInt8)) (ms : List Nat) : Nat :=
+  (Window.msm (G := ZN order) (fun x => x.val == 0) bs (ms.map fun m => ⟨m % order⟩)).val
+
+open BronVerif.Window in
+/-- the Go-literal nibble ladder and the generic ladder of every width `1 … 10` plus one of
+`11 … 16` (their tables have up to `2^16` entries; the choice depends on the scalar) -/
+def znSmulAgree (order : Nat) (bs : Array UInt8) (m total : Nat) : Bool :=
+  (smulNibble (G := ZN order) ⟨m % order⟩ bs).val == total &&
+  ((List.range 10).map (· + 1) ++ [11 + (bs.size + total) % 6]).all fun w =>
+    (windowedSmul (G := ZN order) w ⟨m % order⟩ bs).val == total
+
+/-- the Go functions' model on the runtime curve points -/
+def ptSmulNibble (C : Params) (bs : Array UInt8) (P : Pt) : Pt :=
+  letI : Add Pt := ⟨Curves.add C⟩
+  letI : OfNat Pt 0 := ⟨Curves.zero C⟩
+  Window.smulNibble P bs
+
+def ptMsm (C : Params) (bs : List (Array UInt8)) (ps : List Pt) : Pt :=
+  letI : Add Pt := ⟨Curves.add C⟩
+  letI : OfNat Pt 0 := ⟨Curves.zero C⟩
+  Window.msm (fun P => Curves.isZero C P) bs ps
+
 def groupOp (C : Params) (op : String) (args : List String) (rhs : String) : Verdict :=
   match op, args with
   | "add", [p, q] => match parse? C p, parse? C q with
@@ -211,9 +302,56 @@ def groupOp (C : Params) (op : String) (args : List String) (rhs : String) : Ver
   | "msm", [ks, ps] => match parseNatList? ks, parseList? C ps with
     | some ks, some ps =>
       if ks.length != ps.length then .unsupported "msm lengths" else
-      spec "msm" (render C (msm C ks ps)) rhs
+      let want := msm C ks ps
+      -- the public API hands `Scalar.V.Bytes()` (little-endian, fixed size) to the bucket method
+      -- (executed for the short vectors: naive path and the bucket method with w = 4, 5; the long
+      -- ones are covered over ℤ/n by the `msmg` lines)
+      match (if ks.length ≤ 16 then ks.mapM (natToLE? ((C.n.log2 + 8) / 8)) else none) with
+      | some bs =>
+        if ptMsm C bs ps != want then .unsupported "window-model-inconsistent msm" else
+        spec "msm" (render C want) rhs
+      | none => spec "msm" (render C want) rhs
     | _, _ => .unsupported "msm args"
   | _, _ => .unsupported ("C14 op " ++ op)
+
+
+def windowOp (C : Params) (op : String) (args : List String) (rhs : String) : Verdict :=
+  match op, args with
+  | "smulg", [variant, bytes, m] =>
+    match hexLE? bytes, hexToNat? m with
+    | some bs, some m =>
+      let total := (Window.leToNat bs * m) % C.n
+      if !(znSmulAgree C.n bs m total) then .unsupported "window-model-inconsistent smulg" else
+      spec ("scalar-mul-" ++ variant) (render C (smul C total (gen C))) rhs
+    | _, _ => .unsupported "smulg args"
+  | "smulrawb", [bytes, p] =>
+    match hexLE? bytes, parse? C p with
+    | some bs, some P =>
+      let want := smul C (Window.leToNat bs) P
+      if ptSmulNibble C bs P != want then .unsupported "window-model-inconsistent smulrawb" else
+      spec "scalar-mul-raw" (render C want) rhs
+    | _, _ => .unsupported "smulrawb args"
+  | "msmg", [variant, n, pspec, sspec] =>
+    match n.toNat? with
+    | some n =>
+      match expandPSpec C.n n pspec, expandSSpec n sspec with
+      | some ms, some bs =>
+        let total := (List.zipWith (fun b m => Window.leToNat b * m) bs ms).foldl (fun acc t => (acc + t) % C.n) 0
+        -- the generic twin in algebrautils has no empty case; the model is that of mul.go
+        if znMsm C.n bs ms != total then .unsupported "window-model-inconsistent msmg" else
+        spec ("msm-" ++ variant) (render C (smul C total (gen C))) rhs
+      | _, _ => .unsupported "msmg specs"
+    | none => .unsupported "msmg n"
+  | "msmrawb", [bytes, ps] =>
+    match (splitComma bytes).mapM hexLE?, parseList? C ps with
+    | some bs, some ps =>
+      if bs.length != ps.length then .unsupported "msmrawb lengths" else
+      let want := msm C (bs.map Window.leToNat) ps
+      if ptMsm C bs ps != want then .unsupported "window-model-inconsistent msmrawb" else
+      spec "msm-raw" (render C want) rhs
+    | _, _ => .unsupported "msmrawb args"
+  | _, _ => .unsupported ("C14 op " ++ op)
+
 
 def projOp (C : Params) (op : String) (args : List String) (rhs : String) : Verdict :=
   withPrime C.p (.unsupported "p = 0") fun q =>
@@ -238,6 +376,12 @@ def handle (op : String) (args : List String) (rhs : String) : Verdict :=
     match args with
     | cn :: rest => match curveOf? cn with
       | some C => groupOp C op rest rhs
+      | none => .unsupported ("curve " ++ cn)
+    | [] => .unsupported "no curve"
+  else if ["smulg", "smulrawb", "msmg", "msmrawb"].contains op then
+    match args with
+    | cn :: rest => match curveOf? cn with
+      | some C => windowOp C op rest rhs
       | none => .unsupported ("curve " ++ cn)
     | [] => .unsupported "no curve"
   else if op.startsWith "p" || op.startsWith "e" then
